@@ -1,7 +1,9 @@
 """Implementation driver for C08: one full trip of a call through the real taskiq code.
 
     task.kiq(*args, **kwargs)                      (real AsyncKicker: _prepare_arg / _prepare_message)
-      -> broker.formatter.dumps(message)           (real ProxyFormatter / JSONFormatter, JSON / pickle serializer)
+      -> broker.formatter.dumps(message)           (real ProxyFormatter / JSONFormatter, JSON / pickle serializer - the
+                                                    objects the broker's own constructor installed, or hand-built ones:
+                                                    see make_broker)
       -> bytes -> Receiver.callback(bytes)         (real loads, parse_params, dependency resolution, run_task)
       -> the generated task function's body        (captures locals() at entry)
 
@@ -43,6 +45,7 @@ def _install_parse_tramp():
     patchall.patch_attr(_compat, "parse_obj_as", _parse_tramp, prefix="taskiq.receiver")
 
 from taskiq.formatters.json_formatter import JSONFormatter
+from taskiq.formatters.proxy_formatter import ProxyFormatter
 from taskiq.message import BrokerMessage
 from taskiq.receiver import Receiver, params_parser
 from taskiq.serializers.json_serializer import JSONSerializer
@@ -133,10 +136,10 @@ ANNS = {
     "int": int, "str": str, "float": float, "bool": bool, "List[int]": List[int], "Dict[str,int]": Dict[str, int],
     "Optional[int]": Optional[int], "Any": Any, "M1": M1, "M2": M2, "D1": D1, "D2": D2, "X": X,
     "Union[int,str]": Union[int, str], "None": type(None), "List[M1]": List[M1], "Context": Context,
-    "BaseModel": pydantic.BaseModel, "NZ": NZ, "M3": M3,
+    "BaseModel": pydantic.BaseModel, "NZ": NZ, "M3": M3, "List[str]": List[str], "Dict[str,str]": Dict[str, str],
 }
 ANN_SRC = dict({k: k for k in ANNS}, **{"Dict[str,int]": "Dict[str, int]", "Union[int,str]": "Union[int, str]",
-                                        "BaseModel": "pydantic.BaseModel"})
+                                        "BaseModel": "pydantic.BaseModel", "Dict[str,str]": "Dict[str, str]"})
 MODELS = {"M1": M1, "M2": M2, "M3": M3}
 DCS = {"D1": D1, "D2": D2}
 
@@ -408,11 +411,20 @@ def define(case, out):
 
 
 def make_broker(fmt, ser, broker=None):
+    """formatter x serializer of the broker the call goes through.
+    ser: "default" = the broker keeps the serializer ITS OWN CONSTRUCTOR installed (AsyncBroker.__init__, reached through the
+    CapBroker / InMemoryBroker subclasses) - what every application that configures nothing runs with; "json" / "pickle" = a
+    JSONSerializer() / PickleSerializer() built here and handed over through with_serializer.
+    fmt: "proxy" (or None) = the formatter the constructor installed is left alone (ProxyFormatter(broker)); "proxy_built" =
+    a ProxyFormatter(broker) built here and handed over through with_formatter; "json" = JSONFormatter()."""
     if broker is None:
         broker = CapBroker().with_result_backend(InmemoryResultBackend())
-    broker = broker.with_serializer(PickleSerializer() if ser == "pickle" else JSONSerializer())
+    if ser != "default":
+        broker = broker.with_serializer(PickleSerializer() if ser == "pickle" else JSONSerializer())
     if fmt == "json":
         broker = broker.with_formatter(JSONFormatter())
+    elif fmt == "proxy_built":
+        broker = broker.with_formatter(ProxyFormatter(broker))
     captured = broker.captured = []
     real_dumps = broker.formatter.dumps
 
@@ -448,6 +460,8 @@ async def call(case, out, fn, CAP, broker, task, get_receiver, registry=None, wo
     if registry is not None:
         out["executed"], out["judged"] = [], registry[1]
         out["src"], out["hints"] = registry[0][registry[1]][1]["src"], registry[0][registry[1]][1]["hints"]
+    out["broker_conf"] = [type(broker).__mro__[1].__name__ if type(broker) in (CapBroker, LifeBroker) else type(broker).__name__,
+                          type(broker.formatter).__name__, type(broker.serializer).__name__]
     args = [build(s) for s in case["args"]]
     kwargs = {k: build(s) for k, s in case["kwargs"]}
     has_type = any(isinstance(a, type) for a in list(args) + list(kwargs.values()))
